@@ -17,7 +17,7 @@ RULE = ("results of every extractor over (i) generated documents / spreadsheets 
         "each with a drawn path argument (None, relative, absolute existing, absolute non-existent, unicode, multi-dot, hidden, archive!/member). A battery runs on the result and on every "
         "unit, image and table reachable from it: text accessors return UTF-8-encodable str, unit and image numbers are ints >= 1, get_bytes() is a binary stream at position 0 whose "
         "length equals the reported size, get_dim() equals the shape of get_table(), caption/description/content type are str, file metadata equals an independent derivation from "
-        "the path (all None for None), no accessor raises, and every stored document property the metadata type has a field for is reported unchanged. Non-trivial = result with >=1 "
+        "the path (all None for None, whatever was extracted before), no accessor raises (RTF / PPT / XLS / DOC text fields holding arbitrary UTF-16 code units, zero or non-length picture sizes included), and every stored document property the metadata type has a field for is reported unchanged. Non-trivial = result with >=1 "
         "unit and (an image or table or a non-ASCII property or a non-None path), or an accepted mutant; distinct by digest.")
 ASSUMPTIONS = ["property values have no leading/trailing whitespace, control characters or newlines", "path arguments contain no '..' segments or trailing separators"]
 
